@@ -521,6 +521,28 @@ func c05RunOne(data []byte) (res c05Result) {
 			fail("malformed-result", w)
 		}
 	}
+	entry = "mux.ReadChunk"
+	for _, off := range []int{0, 12, 20, len(data) / 2} {
+		if off <= len(data) {
+			if ch, n, e := mux.ReadChunk(data[off:]); e == nil {
+				if n < 8 || n > len(data)-off+1 || len(ch.Data) > len(data) {
+					fail("malformed-result", fmt.Sprintf("ReadChunk at %d: consumed %d of %d bytes, payload %d", off, n, len(data)-off, len(ch.Data)))
+				}
+			}
+			mux.ReadChunkHeader(data[off:])
+		}
+	}
+	entry = "animation.Decode"
+	if an0, e := animation.Decode(rd()); e == nil && an0 != nil {
+		if an0.CanvasWidth < 0 || an0.CanvasHeight < 0 { // a zero canvas is not an image; it fails later, at DecodeFrames / NewAnimDecoder
+			fail("malformed-result", fmt.Sprintf("animation.Decode ok with canvas %dx%d", an0.CanvasWidth, an0.CanvasHeight))
+		}
+		an0.TotalDuration()
+		for i := range an0.Frames {
+			an0.Frames[i].Bounds()
+			an0.Frames[i].HasImage()
+		}
+	}
 	entry = "mux.NewDemuxer"
 	dm, err5 := mux.NewDemuxer(data)
 	if err5 == nil {
